@@ -4,7 +4,7 @@ from .progfam import *
 
 def run(tier, seed):
     return run_prog_property(
-        "C09", ["forwhile"], tier, seed, verdict_fams=("forwhile",),
+        "C09", ["forwhile"], tier, seed, trace_fams=("forwhile",), verdict_fams=("forwhile",),
         rule="MC_ForWhile.tla: for counter widths 1,2,4,8 (thorough: 16) a loop whose body records the order of the counters "
              "(acc'=3*acc+i), exits with Left(acc) when i equals the exit index carried by the read-only context and - in the "
              "poisoned variant - panics when evaluated for a counter beyond the exit. Witness points: every exit iteration "
